@@ -52,7 +52,7 @@
 EXTENDS CondReqOps, FiniteSets, TLC
 
 CONSTANTS Part,      \* "cond" | "misc" (expires and gzip)
-          Size,      \* "quick" | "thorough"
+          Size,      \* "quick" | "thorough" | "cov"
           Defects
 
 VARIABLES phase, ret, P, bad, hist, out
@@ -66,20 +66,23 @@ D(x) == x \in Defects
 Methods == {"GET", "HEAD", "PUT", "POST", "DELETE"}
 TS(k, a, b) == <<k, a, b>>
 SpecsQuick == {TS("none", 0, 0), TS("star", 0, 0), TS("list", 1, 0), TS("list", 11, 0), TS("list", 2, 0),
-               TS("list", 2, 1), TS("bare", 0, 0)}
-SpecsFull == SpecsQuick \cup {TS("list", 12, 0), TS("list", 3, 0), TS("list", 4, 0), TS("list", 1, 2),
+               TS("list", 2, 1)}
+SpecsFull == SpecsQuick \cup {TS("bare", 0, 0), TS("list", 12, 0), TS("list", 3, 0), TS("list", 4, 0), TS("list", 1, 2),
                               TS("list", 2, 11), TS("empty", 0, 0), TS("starlist", 0, 0)}
-Specs == IF Size = "quick" THEN SpecsQuick ELSE SpecsFull
-Ims == IF Size = "quick" THEN {"none", "early", "equal", "late", "bad"} ELSE {"none", "early", "equal", "late", "alt", "bad"}
-Ius == {"none", "early", "equal", "late", "alt", "bad"}
-Curs == IF Size = "quick" THEN {0, 1, 11} ELSE {0, 1, 11, 3, 4}
+\* Size "cov" is a small sample of every block, only used to read TLC's action coverage
+Methods1 == IF Size = "cov" THEN {"GET", "PUT"} ELSE Methods
+Specs == CASE Size = "quick" -> SpecsQuick [] Size = "cov" -> {TS("none", 0, 0), TS("list", 1, 0)} [] OTHER -> SpecsFull
+Ims == CASE Size = "quick" -> {"none", "early", "equal", "late", "bad"} [] Size = "cov" -> {"none", "equal"}
+         [] OTHER -> {"none", "early", "equal", "late", "alt", "bad"}
+Ius == IF Size = "cov" THEN {"none", "early"} ELSE {"none", "early", "equal", "late", "alt", "bad"}
+Curs == CASE Size = "quick" -> {0, 1, 11} [] Size = "cov" -> {1} [] OTHER -> {0, 1, 11, 3, 4}
 
 C(fe, prog, m, cur, lm, st, im, nm, ims, ius) ==
   [part |-> "cond", fe |-> fe, prog |-> prog, m |-> m, cur |-> cur, lm |-> lm, st |-> st,
    imk |-> im[1], im1 |-> im[2], im2 |-> im[3], nmk |-> nm[1], nm1 |-> nm[2], nm2 |-> nm[3], ims |-> ims, ius |-> ius]
 
 None3 == TS("none", 0, 0)
-Exotic == {None3, TS("list", 3, 0), TS("list", 4, 0), TS("empty", 0, 0), TS("starlist", 0, 0)}
+Exotic == {None3, TS("list", 3, 0), TS("list", 4, 0), TS("bare", 0, 0), TS("empty", 0, 0), TS("starlist", 0, 0)}
 
 (* The cases are built in two steps, so that TLC's workers share the work: a
    skeleton (block, front end, program, method, validators, status) is the initial
@@ -87,19 +90,19 @@ Exotic == {None3, TS("list", 3, 0), TS("list", 4, 0), TS("empty", 0, 0), TS("sta
 Sk(blk, fe, prog, m, cur, lm, st) == [blk |-> blk, fe |-> fe, prog |-> prog, m |-> m, cur |-> cur, lm |-> lm, st |-> st]
 Skeletons ==
   \* 1: the full product, with a Last-Modified
-  {Sk(1, "direct", "tools", m, cur, 1, 200) : m \in Methods, cur \in Curs}
+  {Sk(1, "direct", "tools", m, cur, 1, 200) : m \in Methods1, cur \in Curs}
   \* 2: without a Last-Modified the dates must not matter
-  \cup {Sk(2, "direct", "tools", m, cur, 0, 200) : m \in Methods, cur \in Curs}
+  \cup {Sk(2, "direct", "tools", m, cur, 0, 200) : m \in Methods1, cur \in Curs}
   \* 3: tags with separators inside, field values that are no tag lists
   \cup {Sk(3, "direct", "tools", m, cur, 1, 200) : m \in {"GET", "PUT"}, cur \in {3, 4, 1}}
   \* 4: an answer that is not 200 without the preconditions
   \cup {Sk(4, fe, "tools", m, 1, 1, st) : fe \in {"direct", "http"}, m \in {"GET", "PUT"}, st \in {201, 404, 410}}
   \* 5: serve_file
-  \cup {Sk(5, fe, "file", m, 0, 1, 200) : fe \in {"direct", "http"}, m \in Methods}
+  \cup {Sk(5, fe, "file", m, 0, 1, 200) : fe \in {"direct", "http"}, m \in Methods1}
   \* 6: autotags
   \cup {Sk(6, fe, "auto", m, cur, 1, 200) : fe \in {"direct", "http"}, m \in {"GET", "PUT"}, cur \in {0, 1}}
   \* 7: through the real HTTP component
-  \cup {Sk(7, "http", "tools", m, cur, lm, 200) : m \in Methods, cur \in {0, 1, 11}, lm \in {0, 1}}
+  \cup {Sk(7, "http", "tools", m, cur, lm, 200) : m \in Methods1, cur \in IF Size = "cov" THEN {1} ELSE {0, 1, 11}, lm \in {0, 1}}
 
 Pick(blk) ==      \* <<If-Match, If-None-Match, If-Modified-Since, If-Unmodified-Since>>
   CASE blk = 1 -> Specs \X Specs \X Ims \X Ius
